@@ -12,6 +12,12 @@ NOT_APPLICABLE = {
 }
 
 CLAIMS = {
+    "C19": {
+        "text": "Decides signal-safety discipline and dispatch structure, not timing: (R19.1) outside the handler every use of the handler-shared list/timer state happens between in_critical_section = true and = false on every path; (R19.2) Handler::act() is invoked only by the two dispatch loops and is followed on every path by flagging the element expired and erasing it, and destructors deregister only watchers that have not fired; (R19.4) the weight watcher fires while !less_than(current, deadline); (R19.5) each comparison operator of the timer's Time type reads both operands; (R19.6) every set_timer() — which overwrites the record of the interval being timed — is preceded by an update of time_so_far. Necessary for 'at most once', 'never early' and 'promptly' under signals arriving at any point. The deadline arithmetic itself, promptness bounds and delivery order are numeric over timer values and NOT decided. One known finding (reschedule() loses the elapsed interval) is listed in known_findings.json.",
+        "design_ref": "DESIGN.md §3 C19",
+        "note": "the per-object `expired` flag read by ~Watchdog outside the critical section was reviewed and is not part of the rule (erasing an already-fired element only moves it inside the free list); ownership of the handler in the constructors is decided by the C14 check (R14.2)",
+        "technique": "dominance / must-follow rules over clang CFG for a region protocol, who-may-call rule, operand-use rule on comparison operators",
+    },
     "C14": {
         "text": "Decides ordering/ownership clauses, not leak-freedom for every failing allocation: (R14.1) in each of the 188 validating public mutators of the domains and solvers no write to the receiver lies on a CFG path to a validation throw of the same function (rejected calls change nothing); (R14.2) the result of every new / clone() / allocator allocate() (96 sites) is owned at once — returned, handed to a guard or callee, stored in an already constructed owner — or, while held in a raw local pointer or in a raw member of an object under construction (including what a same-class helper such as init() allocated for a constructor), is followed by no may-throw step until it is handed over, guarded or protected by try/catch(...){release; throw;}; (R14.3) every cycle of the nine loops that hold a maybe_abandon() checkpoint passes one and each anchor function keeps its confirmed number of checkpointed loops. R14.4 (cached results are handed out only after a successful solve) is decided by the C06/C07 checks. Leak-freedom under the k-th allocation failure deep inside call chains and the strong guarantee after bad_alloc in the middle of a mutator are NOT decided.",
         "design_ref": "DESIGN.md §3 C14",
